@@ -442,6 +442,9 @@ func (in *w1Instance) sure() bool {
 	margin := time.Duration(0)
 	if in.cl.w.s.Cfg.StallPm > 0 {
 		margin = 1500 * time.Millisecond
+		if ms := in.cl.w.s.Cfg.LongStallMs; ms > 0 {
+			margin = time.Duration(ms+300) * time.Millisecond
+		}
 	}
 	return !in.cl.isClosed() || in.startAt+margin < in.cl.closedAt
 }
